@@ -35,6 +35,9 @@ pub struct Case {
 	/// a 60-character label in front (identifier longer than 64 octets); not with the unix-socket group (socket paths are limited to 107 octets)
 	#[serde(default)]
 	pub long_label: bool,
+	/// the certificate's env holds the real settings while [global] env holds other values for the same variables (the more specific wins)
+	#[serde(default)]
+	pub env_conflict: bool,
 }
 
 pub fn strategy() -> impl Strategy<Value = Case> {
@@ -49,9 +52,10 @@ pub fn strategy() -> impl Strategy<Value = Case> {
 		any::<bool>(),
 		any::<bool>(),
 		prop_oneof![4 => Just(false), 1 => Just(true)],
-		(any::<bool>(), prop_oneof![2 => Just(""), 1 => Just("reset"), 1 => Just("lock")], prop_oneof![3 => Just(false), 1 => Just(true)]),
+		(any::<bool>(), prop_oneof![2 => Just(""), 1 => Just("reset"), 1 => Just("lock")], prop_oneof![3 => Just(false), 1 => Just(true)], prop_oneof![2 => Just(false), 1 => Just(true)]),
 	)
-		.prop_map(|(group, with_git, labels, n_ids, issuances, host, pid_root_set, sock_root_set, env_at_global, umask077, (ca_tls_max12, git_disturb, long_label))| Case {
+		.prop_map(|(group, with_git, labels, n_ids, issuances, host, pid_root_set, sock_root_set, env_at_global, umask077, (ca_tls_max12, git_disturb, long_label, env_conflict))| Case {
+			env_conflict: env_conflict && !env_at_global,
 			git_disturb: if with_git { git_disturb.to_string() } else { String::new() },
 			long_label: long_label && group != "tls-alpn-01-tacd-unix",
 			issuances: if with_git && !git_disturb.is_empty() { issuances.max(2) } else { issuances },
@@ -198,6 +202,16 @@ fn exec_in(case: &Case, acmed: &std::path::Path, tacd: &std::path::Path, dir: &s
 		cert["env"] = json!({bb::CERT_ENV: "c1"});
 	} else {
 		cert["env"] = serde_json::Value::Object(env.clone());
+		if case.env_conflict {
+			// the same variables with other values one level up
+			// (only the variables the certificate sets itself: one it leaves out is inherited)
+			let nowhere = dir.join("not-here").display().to_string();
+			let mut g = serde_json::Map::new();
+			for k in env.keys().filter(|k| *k != bb::CERT_ENV) {
+				g.insert(k.clone(), json!(match k.as_str() { "TACD_PORT" => "9".to_string(), "TACD_HOST" => "192.0.2.9".to_string(), _ => nowhere.clone() }));
+			}
+			global["env"] = serde_json::Value::Object(g);
+		}
 	}
 	let shipped = format!("{}/acmed/config/default_hooks.toml", build::REPO);
 	let cfg = json!({
@@ -324,7 +338,7 @@ fn exec_in(case: &Case, acmed: &std::path::Path, tacd: &std::path::Path, dir: &s
 		return r;
 	}
 	let _ = tail;
-	let mut classes = vec![format!("group={}", case.group), format!("git={}{}", case.with_git, if case.git_disturb.is_empty() { String::new() } else { format!("+{}", case.git_disturb) }), format!("long-identifier={}", case.long_label), format!("issuances={}", case.issuances), format!("ids={}", ids.len())];
+	let mut classes = vec![format!("group={}", case.group), format!("git={}{}", case.with_git, if case.git_disturb.is_empty() { String::new() } else { format!("+{}", case.git_disturb) }), format!("long-identifier={}", case.long_label), format!("global-env-conflicts={}", case.env_conflict), format!("issuances={}", case.issuances), format!("ids={}", ids.len())];
 	if tcp {
 		classes.push(format!("host={}", case.host));
 	}
@@ -341,7 +355,7 @@ fn exec_in(case: &Case, acmed: &std::path::Path, tacd: &std::path::Path, dir: &s
 }
 
 pub fn run(ctx: &Ctx, rep: &mut Report) {
-	rep.rule = "case = the shipped acmed/config/default_hooks.toml included as is; one of the groups http-01-echo, tls-alpn-01-tacd-tcp, tls-alpn-01-tacd-unix alone or combined with git (certificate and account); HTTP_ROOT / TACD_PORT set to scratch values, TACD_HOST unset (default: the identifier, then `localhost`) / 127.0.0.1 / [::1], TACD_PID_ROOT and TACD_SOCK_ROOT set or defaulted to /run, variables given at certificate or global level, umask 022 or 077; 1..3 DNS identifiers of 1..3 labels; 1..3 consecutive issuances in one daemon run; PATH holds the release tacd. The mock CA validates for real with 5 s patience: reads <HTTP_ROOT>/<identifier>/.well-known/acme-challenge/<token> (world-readable, body = key authorization) or performs an acme-tls/1 handshake with the documented address or socket and applies RFC 8737. With the git group, after the first issuance the certificate directory's .git may be removed (files exist, the repository does not) or a stale .git/index.lock left (git fails during the next issuance, which must still succeed and install a consistent pair); one case in four (not with the unix-socket group) uses identifiers longer than 64 octets. Oracle: every issuance succeeds; after each one no proof file, responder process, pid file or socket is left; with git every stored file equals its HEAD blob and the certificate directory has one commit per write. Non-trivial = >= 2 issuances or git.".into();
+	rep.rule = "case = the shipped acmed/config/default_hooks.toml included as is; one of the groups http-01-echo, tls-alpn-01-tacd-tcp, tls-alpn-01-tacd-unix alone or combined with git (certificate and account); HTTP_ROOT / TACD_PORT set to scratch values, TACD_HOST unset (default: the identifier, then `localhost`) / 127.0.0.1 / [::1], TACD_PID_ROOT and TACD_SOCK_ROOT set or defaulted to /run, variables given at certificate or global level, umask 022 or 077; 1..3 DNS identifiers of 1..3 labels; 1..3 consecutive issuances in one daemon run; PATH holds the release tacd. The mock CA validates for real with 5 s patience: reads <HTTP_ROOT>/<identifier>/.well-known/acme-challenge/<token> (world-readable, body = key authorization) or performs an acme-tls/1 handshake with the documented address or socket and applies RFC 8737. With the git group, after the first issuance the certificate directory's .git may be removed (files exist, the repository does not) or a stale .git/index.lock left (git fails during the next issuance, which must still succeed and install a consistent pair); one case in four (not with the unix-socket group) uses identifiers longer than 64 octets. In a third of the cases whose settings stand in the certificate's env, [global] env gives other values to the same variables. Oracle: every issuance succeeds; after each one no proof file, responder process, pid file or socket is left; with git every stored file equals its HEAD blob and the certificate directory has one commit per write. Non-trivial = >= 2 issuances or git.".into();
 	rep.assume("the /var/www default of HTTP_ROOT is not exercised (rendering is covered by the hook definitions; the sandbox has no such tree); TACD_PORT is always set (the default 5001 would collide between parallel cases)");
 	run_replays::<Case>(ctx, rep, "bb", &exec);
 	if ctx.replay.is_some() {
